@@ -324,6 +324,67 @@ def struct_unit(M, clsname, long_path, long_size, unset_path, nseq, nids, enum_r
     return h
 
 
+# ------------------------------------------------------------------ signatures: to_dict() consistency (HAP BLE 7.3.4.x tables)
+PERM_BITS = [(0x0010, "pr"), (0x0020, "pw"), (0x0080, "ev"), (0x0004, "aa"), (0x0008, "tw"), (0x0040, "hd")]
+FORMATS = {0x01: ("bool", 1), 0x04: ("uint8", 1), 0x06: ("uint16", 2), 0x08: ("uint32", 4), 0x0A: ("uint64", 8), 0x10: ("int", 4),
+           0x19: ("string", 0), 0x1B: ("data", 0), 0x00: (None, 0), 0x33: (None, 0)}
+UNITS = {0x272F: "celsius", 0x2763: "arcdegrees", 0x27AD: "percentage", 0x2700: None, 0x2731: "lux", 0x2703: "seconds", 0x1234: None}
+
+
+def signature_unit(M, clsname, part):
+    """decode(reference-encode(signature)).to_dict(): instance id, permission bits, format, unit, range and step as encoded.
+    part 'permissions': every property-bit vector (format fixed); part 'format': every format x unit x range x step (bits fixed)"""
+    cls = dict(struct_classes(M))[clsname]
+    tl = {f.name: int(f.metadata["tlv_type"]) for f in init_fields(cls)}
+    coap = clsname.startswith("coap.")
+
+    def h(ex):
+        sym = not getattr(ex, "concrete", False)
+        iid = ex.fresh_int("iid", 0, 65535)
+        props = ex.fresh_int("properties", 0, 65535) if part == "permissions" else 0x0033
+        typ = ex.fresh_int("type", 0, 2 ** 128 - 1)
+        fcode = ex.choice("format", list(FORMATS)) if part == "format" else 0x06
+        ucode = ex.choice("unit", list(UNITS)) if part == "format" else 0x272F
+        fname, width = FORMATS[fcode]
+        have_range = ex.fresh_bool("have_range") and width > 0 and fname != "bool"
+        have_step = ex.fresh_bool("have_step") and width > 0 and fname != "bool"
+        signed = fname == "int"
+        lo, hi = ((-(2 ** 31), 2 ** 31 - 1) if signed else (0, 256 ** width - 1)) if width else (0, 0)
+        mn, mx, st = ex.fresh_int("min", lo, hi), ex.fresh_int("max", lo, hi), ex.fresh_int("step", lo, hi)
+
+        def enc(v):
+            return int_to_rope(v if not signed else (v + 2 ** 32) % (2 ** 32) if isinstance(v, int) else v, width, "little") if not signed or isinstance(v, int) else int_to_rope(v, width, "little", True)
+
+        items = [(tl["type"], le(typ, 16)), (tl["instance_id"], le(iid, 2)), (tl["properties"], le(props, 2)),
+                 (tl["presentation_format"], bytes([fcode, 0]) + ucode.to_bytes(2, "little") + b"\x01\x00\x00")]
+        if have_range:
+            items.append((tl["valid_range"], rope(enc(mn), enc(mx))))
+        if have_step:
+            items.append((tl["step_value"], enc(st)))
+        blob = tlv8_encode(items)
+        d = cls.decode(blob if sym else bytes(blob.concrete())).to_dict()
+        ex.require(d.get("iid") == iid, "to_dict: instance id as encoded")
+        want_perms = [name for bit, name in PERM_BITS if decide((props // bit) % 2 == 1)]
+        ex.require(d.get("perms") == want_perms, "to_dict: permissions are exactly the set property bits (pr, pw, ev, aa, tw, hd)")
+        if "broadcast_events" in d or clsname.startswith("ble."):
+            ex.require(bool(d.get("broadcast_events")) == decide((props // 0x0200) % 2 == 1), "to_dict: broadcast flag is bit 0x0200")
+            ex.require(bool(d.get("disconnected_events")) == decide((props // 0x0100) % 2 == 1), "to_dict: disconnected-events flag is bit 0x0100")
+        # the CoAP module's convention is to call every integer presentation format "int"
+        want_name = "int" if (coap and fname in ("uint8", "uint16", "uint32", "uint64", "int")) else fname
+        ex.require(d.get("format") == want_name, "to_dict: format name of the presentation format code")
+        ex.require(d.get("unit") == UNITS[ucode], "to_dict: unit of the presentation format")
+        if have_range:
+            ex.tag("range")
+            ex.require(d.get("minValue") == mn and d.get("maxValue") == mx, "to_dict: minimum and maximum as encoded")
+        else:
+            ex.require("minValue" not in d and "maxValue" not in d, "to_dict: no range when none was sent")
+        if have_step and decide(st != 0):
+            ex.tag("step")
+            ex.require(d.get("minStep") == st, "to_dict: step as encoded")
+        return ex.observe([fname, sorted(d.keys())])
+    return h
+
+
 def build(tier, mutate=None, seed=0):
     C = copies(mutate)
     R = reals()
@@ -364,6 +425,14 @@ def build(tier, mutate=None, seed=0):
             args = (clsname, lp, ls, up, ns, ni, rot, ep)
             units.append(Unit(nm, struct_unit(C, *args), struct_unit(R, *args), split=(ni >= 6),
                               bounds={"class": clsname, "list_elements": ns, "packed_ids": ni, "long_field": [lp, ls], "unset": up, "enum_rotation": rot, "all_unset_leading_list_element": ep}))
+    if tier != "canary":
+        for clsname in ("ble.Characteristic", "coap.Pdu09Characteristic"):
+            for part in ("permissions", "format"):
+                units.append(Unit("%s/signature-to_dict/%s" % (clsname, part), signature_unit(C, clsname, part), signature_unit(R, clsname, part), split=True,
+                                  bounds={"instance id": "0..65535 (symbolic)", "property bits": "0..65535 (symbolic)" if part == "permissions" else "fixed",
+                                          "format x unit": "%d x %d" % (len(FORMATS), len(UNITS)) if part == "format" else "fixed",
+                                          "range / step": "present or absent, every value of the format"},
+                                  regions=["range", "step"] if part == "format" else []))
     return units
 
 
